@@ -1,0 +1,14 @@
+//go:build verif
+
+package detector
+
+// Verification hooks: export unexported helpers for the /verif correspondence harness.
+// Compiled only with -tags verif.
+
+func VerifGetSpatialIdAttrs(spatialId string) (int, int, int, int, error) {
+	return getSpatialIdAttrs(spatialId)
+}
+
+func VerifOffsetFIndex(fIndex int64, zoom int64) (int64, error) {
+	return offsetFIndex(fIndex, zoom)
+}
